@@ -430,6 +430,9 @@ func c13Memory(t *fw.T) {
 	run := func(total int) (held int, alloc uint64, longest int, ok bool) {
 		rr := newRand(seed)
 		src := &patternReader{total: total, maxChunk: 1 + rr.Intn(8192)}
+		if rr.Intn(3) == 0 {
+			src.maxChunk = gen.Pick(rr, []int{1, 2, 7, 33}) // a slow reader: many refills while one long token is assembled
+		}
 		if disc == "delayed" {
 			src.maxChunk = 1 << 30 // see DESIGN: with delayed frees the bound depends on refills per pending token
 		}
